@@ -5,6 +5,9 @@ plus setTaggedValue).  No zope import here: used by the driver and by the replay
 case = {"n": N, "bases": [[..] per interface 1..N], "attrs": [[[name, kind], ..] ..],
         "tags": [[[tag, value], ..] ..], "style": ["body"|"call", ..], "invs": [[id, ..] ..],
         "failing": [id, ..], "ops": [...], "names": [...], "tagsU": [...]}
+Optional "pyname": [k per interface]: interface i (variable I<i>, identity = i) gets __name__ "I<k>";
+k != i makes it a TWIN of interface k: a different object that compares equal to it (same name and
+module).  A tagged value may be None (JSON null): a defined value.
 Interface 0 is zope.interface.Interface.  Name k is "a<k>", tag k is "t<k>" (tag 0 = "invariants").
 A description defined by interface i is recognisable: Attribute with doc "d<i>", or a method with
 i positional parameters.
@@ -37,6 +40,9 @@ def iface_source(case, i, module='c15'):
     tags = case["tags"][i - 1]
     invs = case["invs"][i - 1]
     style = case["style"][i - 1]
+    pyname = (case.get("pyname") or list(range(1, case["n"] + 1)))[i - 1]
+    if pyname != i:
+        style = "call"          # a class statement would name it I<i>
     lines = []
     for k in invs:
         lines.append("inv%d = make_inv(%d)" % (k, k))
@@ -44,7 +50,7 @@ def iface_source(case, i, module='c15'):
         lines.append("class I%d(%s):" % (i, ", ".join("I%d" % b for b in bases)))
         body = ["__module__ = %r" % module]
         for t, v in tags:
-            body.append("taggedValue(%r, %d)" % (tagname(t), v))
+            body.append("taggedValue(%r, %r)" % (tagname(t), v))
         for k in invs:
             body.append("invariant(inv%d)" % k)
         for nm, kind in attrs:
@@ -62,9 +68,9 @@ def iface_source(case, i, module='c15'):
                 lines.append("def _m%d_%d(%s): pass" % (i, nm, ", ".join("p%d" % j for j in range(i))))
                 items.append("'a%d': _m%d_%d" % (nm, i, nm))
         lines.append("I%d = InterfaceClass('I%d', (%s), {%s}, __module__=%r)" % (
-            i, i, "".join("I%d, " % b for b in bases), ", ".join(items), module))
+            i, pyname, "".join("I%d, " % b for b in bases), ", ".join(items), module))
         for t, v in tags:
-            lines.append("I%d.setTaggedValue(%r, %d)" % (i, tagname(t), v))
+            lines.append("I%d.setTaggedValue(%r, %r)" % (i, tagname(t), v))
         if invs:
             lines.append("I%d.setTaggedValue('invariants', [%s])" % (i, ", ".join("inv%d" % k for k in invs)))
     return "\n".join(lines) + "\n"
@@ -86,7 +92,7 @@ def op_source(op):
     if op[0] == "setbases":
         return "I%d.__bases__ = (%s)" % (op[1], "".join("I%d, " % b for b in op[2]))
     if op[0] == "settag":
-        return "I%d.setTaggedValue(%r, %d)" % (op[1], tagname(op[2]), op[3])
+        return "I%d.setTaggedValue(%r, %r)" % (op[1], tagname(op[2]), op[3])
     if op[0] == "get":
         how = op[3]
         if how == 2:
